@@ -6,6 +6,7 @@ import (
 
 	"github.com/lyraproj/pcore/pcore"
 	"github.com/lyraproj/pcore/px"
+	"github.com/lyraproj/pcore/types"
 	"verifharness/lat"
 	"verifharness/lib"
 )
@@ -36,12 +37,27 @@ func main() {
 // type on the right (the by-specification rule may have fired, also when nested).
 func excluded(u *lat.Universe, a, b int) bool {
 	// (the recipe is looked at as well: the decoded structure does not show what is below an alias)
-	has := func(i int, kind string) bool { return lat.Contains(u.Dec[i], kind) || lat.SpecContains(u.Specs[i], kind) }
+	has := func(i int, kind string) bool {
+		return lat.Contains(u.Dec[i], kind) || lat.SpecContains(u.Specs[i], kind)
+	}
 	if has(a, "Unit") || has(b, "Unit") {
 		return true
 	}
 	if has(a, "Struct") && has(b, "Hash") {
 		return true
+	}
+	return false
+}
+
+// valueHasHashType: the value is, or holds, a type that contains a Hash type
+func valueHasHashType(v *types.VerifVal) bool {
+	if v.K == "Type" && lat.Contains(v.T, "Hash") {
+		return true
+	}
+	for _, e := range v.Vs {
+		if valueHasHashType(e) {
+			return true
+		}
 	}
 	return false
 }
@@ -83,6 +99,10 @@ func run(cfg *lib.Config, res *lib.Result) {
 			}
 		}
 	}
+	typeValueWithHash := make([]bool, nV)
+	for v := 0; v < nV; v++ {
+		typeValueWithHash[v] = valueHasHashType(u.VDec[v])
+	}
 	type pair struct{ a, b int }
 	var truePairs, falsePairs []pair
 	for a := 0; a < nT; a++ {
@@ -108,8 +128,14 @@ func run(cfg *lib.Config, res *lib.Result) {
 			}
 			for v := 0; v < nV; v++ {
 				if u.Inst[b][v] && !u.Inst[a][v] {
+					if typeValueWithHash[v] && (lat.Contains(u.Dec[b], "Struct") || lat.SpecContains(u.Specs[b], "Struct")) {
+						// the same by-specification rule, one level up: the value is a type, and what makes a Hash type an instance of
+						// Type[Struct[..]] is that the Struct accepts it on key type and size alone
+						res.Count("asg.true.value-excluded")
+						continue
+					}
 					res.Violate(lib.Violation{Clause: "soundness",
-						What: fmt.Sprintf("%s accepts %s, and %s is an instance of the latter but not of the former%s", u.Text[a], u.Text[b], lat.ValText(u.V[v]), lat.Legend(u.Specs[a], u.Specs[b])),
+						What:  fmt.Sprintf("%s accepts %s, and %s is an instance of the latter but not of the former%s", u.Text[a], u.Text[b], lat.ValText(u.V[v]), lat.Legend(u.Specs[a], u.Specs[b])),
 						Input: map[string]interface{}{"kind": "sound", "a": u.Specs[a], "b": u.Specs[b], "v": u.VSpec[v]},
 						Tags:  tags(u, a, b)})
 					break
